@@ -386,10 +386,12 @@ def run(tier, seed):
             if len(v.violations) > 200:
                 break
         # R, long simulated behaviours
-        nsim = 100 if tier == "quick" else 1500
+        nsim = 40 if tier == "quick" else 600
         rs = common.run_tlc("Checks", "MC_ChecksSim.cfg", wd, workers=1, timeout=1200,
                             simulate="num=%d" % nsim, extra=["-depth", "15", "-seed", str(seed + 1)])
-        for x in rs.records:
+        # TLC evaluates the emission on every successor of the last step: about 150 records per simulated behaviour that differ in the
+        # last event only; a seeded sample of them is replayed
+        for x in rng_sample(rs.records, 2500 if tier == "quick" else 40000, seed):
             nb += 1
             replay_behaviour(w, x["hist"], v, "simulation")
             v.case(("S", repr(x["hist"])), sample=x["hist"][:6] if len(v.samples) < 3 else None)
